@@ -104,7 +104,15 @@ type c16Case struct {
 	Exec        bool // through chain.Processor.Execute instead of NewAuthBatch directly
 	WaitEarly   bool // direct mode: Wait is called as soon as the transactions are added (else after the Done callback)
 	Gate        bool // direct mode with WaitEarly: the batch verification tasks are held back until Wait has been entered
-	Blocks      []c16Block
+	// engines map with further batch-verified types: harness batch verifiers (collect in Add, every
+	// ExtraBatchSize items hand out a closure that verifies them one by one with the real auth.Verify,
+	// remainder in Done) for the listed schemes (1 secp256r1, 2 BLS, 3 stub)
+	ExtraBatch     []int
+	ExtraBatchSize int
+	// Park = 1+scheme: that type's batch worker is held inside AuthBatchVerifier.Add of its LAST item
+	// until the flush (AuthBatchVerifier.Done) of some type has been observed (bounded by 30 ms). 0 = free running
+	Park   int
+	Blocks []c16Block
 }
 
 type c16TxSpec struct {
@@ -135,6 +143,32 @@ func c16Gen(rt *rapid.T) c16Case {
 		Gate:        rapid.Bool().Draw(rt, "gate"),
 	}
 	cores := max(c.Workers, 1)
+	switch rapid.SampledFrom([]int{0, 0, 0, 0, 1, 2, 3, 4, 5, 6, 7}).Draw(rt, "extraBatch") {
+	case 1:
+		c.ExtraBatch = []int{schemeSecp}
+	case 2:
+		c.ExtraBatch = []int{schemeStub}
+	case 3:
+		c.ExtraBatch = []int{schemeBLS}
+	case 4:
+		c.ExtraBatch = []int{schemeSecp, schemeStub}
+	case 5:
+		c.ExtraBatch = []int{schemeSecp, schemeBLS}
+	case 6:
+		c.ExtraBatch = []int{schemeBLS, schemeStub}
+	case 7:
+		c.ExtraBatch = []int{schemeSecp, schemeBLS, schemeStub}
+	}
+	parkable := append([]int{}, c.ExtraBatch...)
+	if c.BatchEngine {
+		parkable = append(parkable, schemeEd)
+	}
+	if len(c.ExtraBatch) > 0 {
+		c.ExtraBatchSize = rapid.IntRange(1, 5).Draw(rt, "extraBatchSize")
+	}
+	if len(parkable) >= 2 && rapid.SampledFrom([]bool{false, false, false, true}).Draw(rt, "park") {
+		c.Park = 1 + rapid.SampledFrom(parkable).Draw(rt, "parkScheme")
+	}
 	nBlocks := rapid.SampledFrom([]int{1, 1, 1, 2, 2, 3}).Draw(rt, "nBlocks")
 	for b := 0; b < nBlocks; b++ {
 		var blk c16Block
@@ -151,6 +185,22 @@ func c16Gen(rt *rapid.T) c16Case {
 		blk.Slots = make([]c16Slot, n)
 		for i := range blk.Slots {
 			blk.Slots[i] = c16Slot{Pick: rapid.IntRange(0, 3).Draw(rt, "pick"), Key: rapid.IntRange(0, poolSize-1).Draw(rt, "key")}
+		}
+		if c.Park > 0 {
+			// the parked type and at least one other batch-verified type must be in the block
+			for _, sch := range parkable {
+				if blk.Counts[sch] == 0 {
+					blk.Counts[sch] = rapid.IntRange(1, 4).Draw(rt, "parkFill")
+				}
+			}
+			n = blk.Counts[0] + blk.Counts[1] + blk.Counts[2] + blk.Counts[3]
+			for len(blk.Slots) < n {
+				blk.Slots = append(blk.Slots, c16Slot{Pick: rapid.IntRange(0, 3).Draw(rt, "pick"), Key: rapid.IntRange(0, poolSize-1).Draw(rt, "key")})
+			}
+			if rapid.IntRange(0, 3).Draw(rt, "parkFault") > 0 { // an invalid auth as the parked type's last item
+				blk.Faults = append(blk.Faults, c16Fault{Scheme: 10 + c.Park - 1, PosSel: c16PosLast,
+					Kind: rapid.SampledFrom([]int{1, 2, 3, 6}).Draw(rt, "fKind"), Arg: rapid.IntRange(0, 511).Draw(rt, "fArg")})
+			}
 		}
 		nf := rapid.SampledFrom([]int{0, 0, 1, 1, 1, 1, 2, 2, 3}).Draw(rt, "nFaults")
 		for f := 0; f < nf; f++ {
@@ -449,6 +499,13 @@ func c16Expand(c c16Case, bi int, st *vstat.Stats) []c16TxSpec {
 		if sel < 4 && len(byScheme[schemeEd]) > 0 {
 			s = schemeEd
 		}
+		if f.Scheme >= 10 { // 10+scheme: exactly that scheme
+			s = (f.Scheme - 10) % 4
+			if len(byScheme[s]) == 0 {
+				st.Skip("fault-on-absent-scheme")
+				continue
+			}
+		}
 		n := len(byScheme[s])
 		bs := max(n/cores, ed25519.MinBatchSize)
 		k := -1
@@ -567,6 +624,124 @@ func (b *c16GatedBV) Done() []func() error {
 		out[i] = b.wrap(f)
 	}
 	return out
+}
+
+// ---- engines map with several batch-verified types, and the harness-owned park of one type's last Add
+
+type c16Sched struct {
+	parkType           int // type id whose last Add is parked, -1 none
+	flushed            chan struct{}
+	flushOnce          sync.Once
+	byFlush, byTimeout atomic.Int64
+	lateAdds           atomic.Int64 // Adds that reached a verifier after its own flush (only a broken AuthBatch.Done does that)
+}
+
+const c16ParkMax = 30 * time.Millisecond
+
+type c16MultiEngines struct {
+	ed    chain.AuthEngines // the real engines (ed25519 batch) or an empty map
+	extra map[uint8]int     // type id -> harness batch size
+	park  int
+	mu    sync.Mutex
+	sched *c16Sched
+}
+
+// reset starts the schedule of a new block.
+func (e *c16MultiEngines) reset() *c16Sched {
+	e.mu.Lock()
+	defer e.mu.Unlock()
+	e.sched = &c16Sched{parkType: e.park, flushed: make(chan struct{})}
+	return e.sched
+}
+
+func (e *c16MultiEngines) GetAuthBatchVerifier(t uint8, cores int, count int) (chain.AuthBatchVerifier, bool) {
+	var bv chain.AuthBatchVerifier
+	if n, ok := e.extra[t]; ok {
+		bv = &c16HarnessBV{n: n}
+	} else if b, ok := e.ed.GetAuthBatchVerifier(t, cores, count); ok {
+		bv = b
+	} else {
+		return nil, false
+	}
+	e.mu.Lock()
+	sc := e.sched
+	e.mu.Unlock()
+	return &c16SchedBV{inner: bv, sched: sc, park: sc.parkType == int(t), total: count}, true
+}
+
+// c16SchedBV observes flushes and parks the last Add of the chosen type.
+type c16SchedBV struct {
+	inner   chain.AuthBatchVerifier
+	sched   *c16Sched
+	park    bool
+	total   int
+	adds    int
+	flushed atomic.Bool
+}
+
+func (b *c16SchedBV) Add(msg []byte, a chain.Auth) func() error {
+	b.adds++
+	if b.park && b.adds == b.total {
+		tm := time.NewTimer(c16ParkMax)
+		select {
+		case <-b.sched.flushed:
+			b.sched.byFlush.Add(1)
+		case <-tm.C:
+			b.sched.byTimeout.Add(1)
+		}
+		tm.Stop()
+	}
+	if b.flushed.Load() {
+		b.sched.lateAdds.Add(1)
+	}
+	return b.inner.Add(msg, a)
+}
+
+func (b *c16SchedBV) Done() []func() error {
+	b.flushed.Store(true)
+	b.sched.flushOnce.Do(func() { close(b.sched.flushed) })
+	return b.inner.Done()
+}
+
+type c16HarnessItem struct {
+	msg []byte
+	a   chain.Auth
+}
+
+// c16HarnessBV is a plain batch verifier for types that have no real one.
+type c16HarnessBV struct {
+	n       int
+	pending []c16HarnessItem
+}
+
+func c16VerifyAll(items []c16HarnessItem) func() error {
+	return func() error {
+		for _, it := range items {
+			if err := it.a.Verify(context.Background(), it.msg); err != nil {
+				return err
+			}
+		}
+		return nil
+	}
+}
+
+func (b *c16HarnessBV) Add(msg []byte, a chain.Auth) func() error {
+	b.pending = append(b.pending, c16HarnessItem{msg, a})
+	if len(b.pending) >= max(b.n, 1) {
+		items := b.pending
+		b.pending = nil
+		return c16VerifyAll(items)
+	}
+	return nil
+}
+
+func (b *c16HarnessBV) Done() []func() error {
+	if len(b.pending) == 0 {
+		return nil
+	}
+	items := b.pending
+	b.pending = nil
+	return []func() error{c16VerifyAll(items)}
 }
 
 var errC16Inconclusive = errors.New("inconclusive: verification did not finish within the deadline but the job was still making progress")
@@ -786,10 +961,23 @@ func c16Run(c c16Case, st *vstat.Stats) error {
 		base = workers.NewParallel(c.Workers, 100)
 	}
 	pool := &c16Workers{inner: base}
-	var engines chain.AuthEngines = auth.Engines{}
+	var realEngines chain.AuthEngines = auth.Engines{}
 	if c.BatchEngine {
-		engines = auth.DefaultEngines()
+		realEngines = auth.DefaultEngines()
 	}
+	batched := map[int]bool{schemeEd: c.BatchEngine}
+	multi := &c16MultiEngines{ed: realEngines, extra: map[uint8]int{}, park: -1}
+	for _, sch := range c.ExtraBatch {
+		if sch >= schemeSecp && sch <= schemeStub {
+			multi.extra[uint8(sch)] = max(c.ExtraBatchSize, 1)
+			batched[sch] = true
+		}
+	}
+	if c.Park > 0 && batched[c.Park-1] {
+		multi.park = c.Park - 1
+	}
+	multi.reset()
+	var engines chain.AuthEngines = multi
 	healthy := true
 	defer func() {
 		if healthy {
@@ -962,7 +1150,35 @@ func c16Run(c c16Case, st *vstat.Stats) error {
 			labels["block-after-failed-block"] = true
 		}
 
+		nBatchTypes := 0
+		for sch, on := range batched {
+			if on && schemes[sch] > 0 {
+				nBatchTypes++
+			}
+		}
+		if nBatchTypes >= 2 {
+			labels["two-batch-types"] = true
+		}
+		if nBatchTypes >= 3 {
+			labels["three-batch-types"] = true
+		}
+		parkedLastInvalid := false
+		if multi.park >= 0 && nBatchTypes >= 2 && schemes[multi.park] > 0 {
+			last := -1
+			for i, sp := range specs {
+				if sp.Scheme == multi.park {
+					last = i
+				}
+			}
+			for _, i := range invalid {
+				if i == last {
+					parkedLastInvalid = true
+				}
+			}
+		}
+
 		// ---- implementation
+		sched := multi.reset()
 		var got, infra error
 		if c.Exec {
 			got, infra = cc.exec(pool, txs, inMemory)
@@ -971,6 +1187,21 @@ func c16Run(c c16Case, st *vstat.Stats) error {
 			}
 		} else {
 			got, infra = c16Direct(pool, engines, txs, c.WaitEarly, c.Gate)
+		}
+		if nBatchTypes >= 2 && sched.byFlush.Load()+sched.byTimeout.Load() > 0 {
+			labels["add-parked-across-done"] = true
+			if sched.byFlush.Load() > 0 {
+				labels["parked:released-by-observed-flush"] = true
+			} else {
+				labels["parked:released-by-timeout"] = true
+			}
+			if parkedLastInvalid {
+				labels["parked-last-item-invalid"] = true
+				nontrivial = true
+			}
+		}
+		if sched.lateAdds.Load() > 0 {
+			labels["observed:add-after-own-flush"] = true
 		}
 		sum := blkSummary{N: len(txs), Ed: edCount, BatchSize: bs, Invalid: invalid, Want: fmt.Sprint(want), Got: fmt.Sprint(got)}
 		summary = append(summary, sum)
@@ -986,8 +1217,8 @@ func c16Run(c c16Case, st *vstat.Stats) error {
 		}
 		switch {
 		case want != nil && got == nil:
-			firstErr = fmt.Errorf("block %d: %d txs, auth of tx %v does not verify one-by-one (%v) but the signature job reported success (workers=%d batchEngine=%v exec=%v waitEarly=%v gate=%v ed25519 count=%d batchSize=%d)",
-				bi, len(txs), invalid, want, c.Workers, c.BatchEngine, c.Exec, c.WaitEarly, c.Gate, edCount, bs)
+			firstErr = fmt.Errorf("block %d: %d txs, auth of tx %v does not verify one-by-one (%v) but the signature job reported success (workers=%d batchEngine=%v extraBatch=%v park=%d exec=%v waitEarly=%v gate=%v ed25519 count=%d batchSize=%d; adds that reached a batch verifier after its own flush: %d)",
+				bi, len(txs), invalid, want, c.Workers, c.BatchEngine, c.ExtraBatch, c.Park, c.Exec, c.WaitEarly, c.Gate, edCount, bs, sched.lateAdds.Load())
 		case want == nil && got != nil:
 			firstErr = fmt.Errorf("block %d: every auth of the %d txs verifies one-by-one but verification failed: %v (workers=%d batchEngine=%v exec=%v ed25519 count=%d batchSize=%d)",
 				bi, len(txs), got, c.Workers, c.BatchEngine, c.Exec, edCount, bs)
@@ -1022,7 +1253,7 @@ func c16Run(c c16Case, st *vstat.Stats) error {
 	return firstErr
 }
 
-const c16Rule = "1-3 blocks verified on one pool (serial or 1..16 parallel workers; engines map with/without the ed25519 batch engine; through Processor.Execute or NewAuthBatch+Job as verifySignatures/waitSignatures do, Wait called before or after the Done callback, optionally with the batch tasks held back until Wait is entered); each block mixes 0-40 ed25519, 0-6 secp256r1, 0-4 BLS and 0-6 stub auths (ed25519 counts biased to k*batchSize-1/+0/+1), 0-3 faults (bit flip, signature of another message, wrong key, s+l / n-s / negated, key bit, the valid auth OBJECT of another tx reused in memory after / without a successful Verify over its own tx, and as non-faults a tx whose own object was verified before, optionally probed with a wrong message) at first/last/batch-boundary/last-partial-batch positions; oracle = auth.Verify one by one on freshly parsed copies never shared with the verifier; non-trivial = (batch engine on and an invalid ed25519 signature in the final partial batch or at a batch boundary) or an auth object reused after a successful verify; distinct by the whole case"
+const c16Rule = "1-3 blocks verified on one pool (serial or 1..16 parallel workers; engines map with/without the real ed25519 batch engine and with 0-3 further batch-verified types (harness batch verifiers for secp256r1/BLS/stub), optionally with one type's batch worker parked inside Add of its last item until a flush by AuthBatch.Done is observed (<=30 ms); through Processor.Execute or NewAuthBatch+Job as verifySignatures/waitSignatures do, Wait called before or after the Done callback, optionally with the batch tasks held back until Wait is entered); each block mixes 0-40 ed25519, 0-6 secp256r1, 0-4 BLS and 0-6 stub auths (ed25519 counts biased to k*batchSize-1/+0/+1), 0-3 faults (bit flip, signature of another message, wrong key, s+l / n-s / negated, key bit, the valid auth OBJECT of another tx reused in memory after / without a successful Verify over its own tx, and as non-faults a tx whose own object was verified before, optionally probed with a wrong message) at first/last/batch-boundary/last-partial-batch positions; oracle = auth.Verify one by one on freshly parsed copies never shared with the verifier; non-trivial = (batch engine on and an invalid ed25519 signature in the final partial batch or at a batch boundary) or an auth object reused after a successful verify, or an invalid auth as the parked type's last item; distinct by the whole case"
 
 func TestC16(t *testing.T) {
 	st := vstat.New(t, "C16", c16Rule)
@@ -1042,8 +1273,6 @@ func TestC16Replay(t *testing.T) {
 	})
 }
 
-
-
 // TestC16Regression replays the minimal cases of the two defects this check found on the
 // pinned tree (fixed in /repo by "serial verification job reported success before its tasks
 // ran" = fixes/F20-serial-job-wait.diff and "verification worker must keep serving tasks after a
@@ -1051,7 +1280,9 @@ func TestC16Replay(t *testing.T) {
 func TestC16Regression(t *testing.T) {
 	st := vstat.New(t, "C16", "regression: hand-written minimal cases (serial pool + ed25519 batch engine with an invalid signature in the only / final batch, Wait entered before the batch tasks ran, directly and through Processor.Execute; 1-worker pool with a failing first signature followed by further tasks and a second block; ed25519 counts exactly k*batchSize with the invalid signature first/last; the verified auth object of another tx reused on this tx for secp256r1 / ed25519 / BLS)")
 	slots := func(n int) []c16Slot { return make([]c16Slot, n) }
-	flt := func(scheme, pos, kind int) c16Fault { return c16Fault{Scheme: scheme, PosSel: pos, Kind: kind, Arg: 107} }
+	flt := func(scheme, pos, kind int) c16Fault {
+		return c16Fault{Scheme: scheme, PosSel: pos, Kind: kind, Arg: 107}
+	}
 	cases := []c16Case{
 		// F20: serial pool, batch engine, one invalid ed25519 tx, through Execute
 		{Workers: 0, BatchEngine: true, Exec: true, Blocks: []c16Block{{Counts: [4]int{1, 0, 0, 0}, Slots: slots(1), Faults: []c16Fault{flt(0, c16PosFirst, c16FaultBitFlip)}}}},
